@@ -256,7 +256,20 @@ func c17R3(c *Ctx, r *Report) {
 										fromMiss = true
 									}
 								}
-								if !fromMiss {
+								// ... and only after the scan: the return is dominated by the loop header (a return placed
+								// before the scan — e.g. a "sizes are equal" shortcut — has examined nothing)
+								var hdr *ssa.BasicBlock
+								if loopIdx != nil {
+									li := loopIdx
+									if bo, isBO := li.(*ssa.BinOp); isBO && bo.Op == token.ADD {
+										li = bo.X
+									}
+									if ph, isPh := li.(*ssa.Phi); isPh {
+										hdr = ph.Block()
+									}
+								}
+								afterScan := hdr != nil && hdr.Dominates(ret.Block())
+								if !fromMiss && afterScan {
 									continue // len - 1 only after the loop ran to completion: every element was a hit
 								}
 							}
